@@ -140,6 +140,31 @@ func buildScriptX(fr *FuncResult, upto int, goal string, pre string, assumptions
 			myRegion = "" // a goal about a whole subtree combines the hints of its regions
 		}
 	}
+	regionStrict := pathHyps && fr.Spec.Opts["region-strict"] != ""
+	firstOfPath := -1
+	if regionStrict && myRegion != "" {
+		for j := 0; j < upto; j++ {
+			if fr.Facts[j].Oblig && strings.Contains(fr.Facts[j].Name, "#assert[") && hintAntecedent(fr.Facts[j].Info) == myAnte {
+				firstOfPath = j
+				break
+			}
+		}
+	}
+	// a goal about a whole subtree W ("forall x :: { x in nrepr[W] } x in nrepr[W] && x != W ==> G") is proved from the
+	// hints that establish the same G region by region, the hints about nrepr[W] itself (its decomposition into
+	// regions) and the first hint of the path
+	wRegion, wGoal := "", ""
+	if regionStrict {
+		if r := hintRegion(fr.Facts[upto].Info); r != "" && myRegion == "" {
+			wRegion, wGoal = r, hintGoal(fr.Facts[upto].Info)
+			for j := 0; j < upto; j++ {
+				if fr.Facts[j].Oblig && strings.Contains(fr.Facts[j].Name, "#assert[") && hintAntecedent(fr.Facts[j].Info) == myAnte {
+					firstOfPath = j
+					break
+				}
+			}
+		}
+	}
 	myPart := ""
 	if pathHyps && fr.Spec.Opts["region-hyps"] != "" {
 		myPart = hintPart(fr.Facts[upto].Info)
@@ -155,7 +180,25 @@ func buildScriptX(fr *FuncResult, upto int, goal string, pre string, assumptions
 			// within one path: a hint about the objects of one region (forall x :: { x in R } ...) is proved
 			// without the hints about the other regions
 			if myRegion != "" {
-				if r := hintRegion(fr.Facts[j].Info); r != "" && r != myRegion {
+				r := hintRegion(fr.Facts[j].Info)
+				if r != "" && r != myRegion {
+					continue
+				}
+				// region-strict: besides the hints of its own region a region hint sees only the first hint of
+				// its path (the structural summary of what the path did)
+				if r == "" && regionStrict && hintAntecedent(fr.Facts[j].Info) == myAnte && j != firstOfPath {
+					continue
+				}
+			}
+			// a path hint that is not about one region (the final goals of a path) does not need the per-region hints
+			// about single objects (forall x :: { x in R } ...), only those about whole subtrees and set relations
+			if regionStrict && myRegion == "" && wGoal == "" && myAnte != "" && hintAntecedent(fr.Facts[j].Info) == myAnte {
+				if r := hintRegion(fr.Facts[j].Info); r != "" && strings.Contains(fr.Facts[j].Info, "(forall x *node :: { x in ") {
+					continue
+				}
+			}
+			if wGoal != "" && hintAntecedent(fr.Facts[j].Info) == myAnte && j != firstOfPath {
+				if hintGoal(fr.Facts[j].Info) != wGoal && hintRegion(fr.Facts[j].Info) != wRegion {
 					continue
 				}
 			}
@@ -218,6 +261,23 @@ func hintRegion(info string) string {
 		return ""
 	}
 	return strings.TrimSpace(t[in+4 : e])
+}
+
+// hintGoal: G for a hint "hint: P ==> (forall x T :: { x in R } <guard> ==> G)", "" otherwise.
+func hintGoal(info string) string {
+	if hintRegion(info) == "" {
+		return ""
+	}
+	k := strings.Index(info, " }")
+	if k < 0 {
+		return ""
+	}
+	t := info[k+2:]
+	a := strings.Index(t, " ==> ")
+	if a < 0 {
+		return ""
+	}
+	return strings.TrimSpace(t[a+5:])
 }
 
 // hintPart: the conjunct predicate a hint establishes when its text ends in "==> ioXX(x, ...)))" or "(ioXX(W, ...))".
